@@ -492,9 +492,12 @@ func init() {
 	h.Register("C07", func(tier string) ([]*h.Scn, []*h.Plain) {
 		var out []*h.Scn
 		thorough := tier == "thorough"
+		// one deviation also in the quick tier for the programs whose repaired defects needed it
+		// (a timer firing while the context is cancelled, an interruption racing the cancel)
+		quickD1 := map[string]bool{"timer-date-firing": true, "timer-duration-firing": true}
 		for _, p := range corpus() {
 			bounds := []int{0}
-			if thorough {
+			if thorough || quickD1[p.name] {
 				bounds = []int{0, 1}
 			}
 			for _, d := range bounds {
